@@ -244,6 +244,15 @@ def listener_base(ctx, rid, fs):
     ctx.instance(rid, [f.id, 'kinds'], {'listens_on': sorted(calls)})
     if calls != {'listen_sat', 'listen_lra', 'listen_rdl', 'listen_set'}:
         ctx.finding(rid, f.id, 'kinds', 'atom_listener must listen on every kind of parameter (bool, real/int, tp, object); found %s' % sorted(calls), loc=f.loc)
+    # ... and on the activation variable itself: an atom becomes active without any of its parameters changing (a fact with constant parameters)
+    env = LocalEnv(f)
+    sig = [canon(n, env) for n in f.nodes() if (n.get('callee_name') or '').rsplit('::', 1)[-1] == 'listen_sat' and 'get_sigma' in show(canon(n, env))
+           and not any(a.get('k') in ('IfStmt', 'CXXForRangeStmt', 'ForStmt', 'WhileStmt') for a in f.ancestors(n))]
+    ctx.instance(rid, [f.id, 'sigma'], {'listens_on_the_activation_variable_unconditionally': bool(sig)})
+    if not sig:
+        ctx.finding(rid, f.id, 'sigma', 'atom_listener does not listen to the activation variable (sigma) of its atom: an atom whose parameters are all constants becomes active without its smart type '
+                    'ever re-checking the instance it is on (two overlapping facts with constant times on one state variable are reported as a solution)', loc=f.loc,
+                    expect='listen_sat(atm.get_sigma()) in the constructor, outside any condition')
 
 
 def new_atom(ctx, rid, f, cls, rule_pred_term):
